@@ -50,6 +50,11 @@ type Case struct {
 	Keep    bool   `json:"keep"`    // Prune with keep set {id} instead of the empty set
 	// where the chunk of the first / second StoreChunk into store 1 comes from (prov_test.go)
 	Prov [2]ProvSpec `json:"prov"`
+	// additionally run one command of the desync binary on a store whose config key and
+	// command-line argument are spelled differently (cli_test.go; needs $VERIF_DESYNC_BIN)
+	CLI *CLICase `json:"cli,omitempty"`
+	// only the command line part (the enumeration of spellings)
+	CLIOnly bool `json:"cli_only,omitempty"`
 }
 
 func genLen(t *rapid.T, size string) int {
@@ -101,6 +106,9 @@ func genCase(t *rapid.T) Case {
 	c.Keep = rapid.IntRange(0, 3).Draw(t, "keep") == 0
 	c.Prov[0] = genProv(t, "prov0")
 	c.Prov[1] = genProv(t, "prov1")
+	if rapid.IntRange(0, 7).Draw(t, "cli") == 0 {
+		c.CLI = genCLI(t)
+	}
 	return c
 }
 
@@ -651,10 +659,28 @@ func run(c Case) (o hx.Outcome) {
 	id := desync.ChunkID(sum)
 	sid := hex.EncodeToString(sum[:])
 
+	o.Class("build:desync=" + desyncImpl + ",other=" + other.Name())
+	if c.CLIOnly {
+		cl := CLICase{}.norm()
+		if c.CLI != nil {
+			cl = c.CLI.norm()
+		}
+		if cliBin() != "" {
+			c.CLI = &cl
+			runCLI(&o, c, data)
+			o.Nontrivial = true // the store of a CLI case always holds both formats of one ID
+		}
+		for i := range o.Violations {
+			o.Violations[i].Msg = fmt.Sprintf("[build %s: desync=%s other=%s] %s", buildName, desyncImpl, other.Name(), o.Violations[i].Msg)
+		}
+		o.Desc = map[string]any{"build": buildName, "len": len(data), "fill": c.Fill, "cli": cl, "n": c.N, "repair": c.Repair}
+		o.Key = fmt.Sprintf("%s/cli-only/%d/%s/%+v/%d/%v", buildName, len(data), c.Fill, cl, c.N, c.Repair)
+		return o
+	}
+
 	root := hx.Scratch("c20")
 	defer os.RemoveAll(root)
 
-	o.Class("build:desync=" + desyncImpl + ",other=" + other.Name())
 	o.Class("fill:"+c.Fill, sizeClass(len(data)), "first-writer:"+c.Mode)
 	crossEntropy := false
 
@@ -787,6 +813,15 @@ func run(c Case) (o hx.Outcome) {
 		crossEntropy = true // desync decoded (GetChunk, Verify, HTTP) an entropy-coded frame of the other implementation
 	}
 
+	// ---- the command line tool and its config file
+	cliKey, cliRan := "", false
+	if c.CLI != nil && cliBin() != "" {
+		runCLI(&o, c, data)
+		cliRan = true
+		cl := c.CLI.norm()
+		cliKey = fmt.Sprintf("%s/%s/%s/%s/%v/%s/%d/%v", cl.Cmd, cl.Key, cl.Arg, cl.Cwd, cl.KeyUnc, cl.Extra, cl.Pieces, cl.SrcUnc)
+	}
+
 	// ---- evidence
 	o.Class("s2:cacnk="+c.Cacnk, "s2:raw="+raw0)
 	switch {
@@ -839,12 +874,12 @@ func run(c Case) (o hx.Outcome) {
 	for i := range o.Violations {
 		o.Violations[i].Msg = fmt.Sprintf("[build %s: desync=%s other=%s] %s", buildName, desyncImpl, other.Name(), o.Violations[i].Msg)
 	}
-	o.Nontrivial = crossEntropy || m2.everBoth
+	o.Nontrivial = crossEntropy || m2.everBoth || cliRan
 	o.Desc = map[string]any{"build": buildName, "desync": desyncImpl, "other": other.Name(), "len": len(data), "fill": c.Fill,
 		"first_writer": c.Mode, "s2_cacnk": c.Cacnk, "s2_raw": raw0, "corrupt": c.Corrupt, "first": c.First, "n": c.N,
 		"repair": c.Repair, "keep": c.Keep, "desync_frame": dfd, "other_frame": ofd,
-		"prov_first": provs[0].key(), "prov_second": provs[1].key()}
-	o.Key = fmt.Sprintf("%s/%d/%s/%s/%s/%s/%s/%s/%v/%v/%s/%s", buildName, len(data), c.Fill, c.Mode, c.Cacnk, raw0, c.Corrupt, c.First, c.Repair, c.Keep, provs[0].key(), provs[1].key())
+		"prov_first": provs[0].key(), "prov_second": provs[1].key(), "cli": cliKey}
+	o.Key = fmt.Sprintf("%s/%d/%s/%s/%s/%s/%s/%s/%v/%v/%s/%s", buildName, len(data), c.Fill, c.Mode, c.Cacnk, raw0, c.Corrupt, c.First, c.Repair, c.Keep, provs[0].key(), provs[1].key()) + "/" + cliKey
 	return o
 }
 
@@ -872,7 +907,7 @@ var spec = &hx.Spec[Case]{
 	Level: "exploration",
 	Rule: "cases = (chunk of 1 byte .. 1 MiB: zero/random/text/mixed; desync client that writes first; for each of the two StoreChunk calls into the desync-written store the provenance of the chunk: NewChunk | NewChunkWithID | GetChunk from a source LocalStore | through desync.Cache | through desync.Copy | through RemoteHTTP from a chunk server | PUT to a chunk server over the destination, with source/wire format same as or opposite to the destination, SkipVerify of the source, Data() called before storing or not; a second store directory holding <id>.cacnk in {absent, one-shot frame, streaming frame without content size, corrupt} written by the other zstd implementation and <id> in {absent, valid, corrupt}; client order, verify workers/repair, prune keep set); " +
 		"the package runs once per build (desync=klauspost/other=libzstd and desync=libzstd/other=klauspost); " +
-		"non-trivial = a frame with at least one compressed-type block was decoded across implementations (other decodes desync's file, or desync reads the other's file), or the generated store held both formats of the ID; " +
+		"non-trivial = a frame with at least one compressed-type block was decoded across implementations (other decodes desync's file, or desync reads the other's file), or the generated store held both formats of the ID (the store of a command-line case always does); " +
 		"distinct by (build, length, fill, first writer, .cacnk state, raw state, corruption kind, client order, repair, keep, provenance of both stored chunks)",
 	Assumptions: []string{
 		"chunk IDs computed with crypto/sha512 (Sum512_256) directly",
@@ -957,6 +992,47 @@ func TestEnum(t *testing.T) {
 	}
 	hx.Exhaustive("provenance grid of the stored chunk (kind x source/wire format x SkipVerify x touched) x destination format for the listed lengths")
 	hx.Exhaustive("store-state grid {.cacnk: absent/one-shot/stream/corrupt} x {raw: absent/valid/corrupt} x fill x first writer for the listed boundary lengths")
+}
+
+// TestEnumCLI: every pair (spelling of the config key, spelling of the command-line argument)
+// that can be used from one working directory; the command, the additional entry and what the
+// entry says rotate over the pairs (thorough: every command for every pair).
+func TestEnumCLI(t *testing.T) {
+	if cliBin() == "" {
+		t.Skip("no desync binary (VERIF_DESYNC_BIN), or not the default build")
+	}
+	extras := []string{"", "other", "sibling", "parent", "children", "wrongcwd", "dup"}
+	cwds := []string{"work", "root", "store", "away"}
+	i, k := 0, 0
+	for _, ks := range spellings {
+		for _, as := range spellings {
+			if as.key || (ks.cwd != "" && as.cwd != "" && ks.cwd != as.cwd) {
+				continue
+			}
+			i++
+			for ci := range cliCmds {
+				if !hx.Thorough() && ci != 0 {
+					break
+				}
+				k++
+				if k%hx.Shards() != hx.Shard() {
+					continue
+				}
+				cl := CLICase{Cmd: cliCmds[(i+ci)%len(cliCmds)], Key: ks.id, Arg: as.id, Cwd: cwds[(i/3)%len(cwds)], KeyUnc: i%4 != 3,
+					Extra: extras[(i/5+ci)%len(extras)], Pieces: 1 + i%3, SrcUnc: i%2 == 0}
+				c := Case{Size: "enum-cli", Fill: []string{"text", "rand", "zero"}[i%3], Len: []int{3000, 1, 70000}[(i/2)%3], Seed: uint64(k) * 7919, Mode: "compressed",
+					Cacnk: "oneshot", Raw: "valid", Corrupt: "otherdata", First: "compressed", N: 1 + k%3, Repair: k%2 == 0, Keep: true, CLI: &cl, CLIOnly: true}
+				if !hx.Case(t, spec, c) {
+					return
+				}
+			}
+		}
+	}
+	if hx.Shard() == 0 {
+		hx.AddNote("enum_cli_cases", k)
+		hx.AddNote("enum_cli_spelling_pairs", i)
+	}
+	hx.Exhaustive("CLI: every feasible pair (config key spelling, command-line spelling) of one local store")
 }
 
 func TestProp(t *testing.T) { hx.Prop(t, spec) }
